@@ -3,9 +3,9 @@
 from typing import Any, Dict, List, Optional
 
 from ..exc import ValidationError
-from ..lang.ast import Document, Field, OperationDefinition
+from ..lang.ast import Document, OperationDefinition
 from ..schema import Schema
-from .collect_fields import selected_fields
+from .collect_fields import collect_fields_untyped, selected_fields
 
 
 class MaxDepthValidationRule:
@@ -72,16 +72,22 @@ class MaxDepthValidationRule:
             ):
                 continue
 
+            # Collect top level fields through inline fragments and fragment
+            # spreads so wrapping a selection in a fragment can't hide depth.
+            collected = collect_fields_untyped(
+                op.selection_set.selections, fragments, variables
+            )
+
             paths = (
                 p
-                for f in op.selection_set.selections
-                if isinstance(f, Field)
+                for fields in collected.values()
+                for f in fields
                 for p in selected_fields(
                     f, fragments=fragments, variables=variables, maxdepth=None,
                 )
             )
 
-            depth = max(x.count("/") + 1 for x in paths)
+            depth = max((x.count("/") + 1 for x in paths), default=0)
 
             if depth > self.max_depth:
                 errors.append(
